@@ -418,10 +418,9 @@ func R10() Rule {
 		for _, m := range []string{"Add", "UpdateMeta"} {
 			fn := P.MustFunc(core.PkgGcsemu, "(*memstore)."+m)
 			ok := false
-			for _, ci := range core.AllCalls(fn) {
-				if !ci.MethodOn(pkgBtree, "BTree", "ReplaceOrInsert") {
-					continue
-				}
+			mscope := storeScope(P, fn)
+			mset := setOf(mscope)
+			for _, ci := range core.CallsIn(mscope, func(ci *core.CallInfo) bool { return ci.MethodOn(pkgBtree, "BTree", "ReplaceOrInsert") }) {
 				// item literal: its meta field is stored from a dereference (struct copy) of the parameter
 				if mi, isMI := ci.Common.Args[1].(*ssa.MakeInterface); isMI {
 					if a, isA := mi.X.(*ssa.Alloc); isA {
@@ -431,7 +430,11 @@ func R10() Rule {
 									for _, rr := range core.Referrers(fa) {
 										if st, isSt := rr.(*ssa.Store); isSt {
 											if ld, isLd := st.Val.(*ssa.UnOp); isLd && ld.Op == token.MUL {
-												if _, isParam := core.Resolve(ld.X).(*ssa.Parameter); isParam {
+												// a dereference (struct copy) of the method's metadata parameter, possibly handed on to a helper or closure
+												if P.AllOrigins(ld.X, mset, func(v ssa.Value) bool {
+													pa, isParam := v.(*ssa.Parameter)
+													return isParam && pa.Parent() == fn
+												}) {
 													ok = true
 												}
 											}
@@ -618,24 +621,44 @@ func R24() Rule {
 					c.Bad("R24", construct, ci.Instr.Pos(), "the %s header is not formatted from the %s field of an object", hname, field)
 					continue
 				}
-				// the same object is what the response describes: passed to jsonRespond afterwards, or returned with the content by Store.Get
-				same := false
-				for _, c2 := range core.AllCalls(fn) {
-					if c2.IsFunc(core.PkgGcsemu, "(*GcsEmu).jsonRespond") && core.InstrReaches(ci.Instr, c2.Instr) {
-						if mi, ok := c2.Common.Args[2].(*ssa.MakeInterface); ok && core.Resolve(mi.X) == obj {
-							same = true
+				// the same object is what the response describes: passed to jsonRespond afterwards, or
+				// returned with the content by Store.Get — in this function or, when the headers are
+				// written by a helper that receives the object, at every call of that helper
+				var sameAt func(fn *ssa.Function, site ssa.Instruction, obj ssa.Value, depth int) bool
+				sameAt = func(fn *ssa.Function, site ssa.Instruction, obj ssa.Value, depth int) bool {
+					obj = core.Resolve(obj)
+					for _, c2 := range core.AllCalls(fn) {
+						if c2.IsFunc(core.PkgGcsemu, "(*GcsEmu).jsonRespond") && core.InstrReaches(site, c2.Instr) {
+							if mi, ok := c2.Common.Args[2].(*ssa.MakeInterface); ok && core.Resolve(mi.X) == obj {
+								return true
+							}
 						}
 					}
-				}
-				if ex, ok := obj.(*ssa.Extract); ok {
-					if g, ok := ex.Tuple.(*ssa.Call); ok && isStoreCall(core.Call(g), "Get") {
-						same = true
+					if ex, ok := obj.(*ssa.Extract); ok {
+						if g, ok := ex.Tuple.(*ssa.Call); ok && isStoreCall(core.Call(g), "Get") {
+							return true
+						}
 					}
+					if pa, ok := obj.(*ssa.Parameter); ok && pa.Parent() == fn && depth < 4 {
+						refs := P.Refs(fn)
+						if len(refs) == 0 {
+							return false
+						}
+						for _, r := range refs {
+							t := core.Translate(pa, fn, r)
+							if t == nil || !sameAt(r.Instr.Parent(), r.Instr, t, depth+1) {
+								return false
+							}
+						}
+						return true
+					}
+					return false
 				}
+				same := sameAt(fn, ci.Instr, obj, 0)
 				c.Check(same, "R24", construct, ci.Instr.Pos(), "header and body are taken from one object", "the "+hname+" header is taken from a different object than the one sent as the response body")
 			}
 		}
-		if n < 8 {
+		if n < 2 {
 			c.Unknown("R24", "floor/headers", token.NoPos, "only %d generation/metageneration header assignments found", n)
 		}
 	}}
